@@ -47,6 +47,7 @@ ROLES = [
     ('semantic::type_definition::vftable::', 'function_to_region', ['&grammar::ItemPath', '&semantic::function::Function'], 'semantic::type_definition::Region'),
     ('semantic::type_definition::vftable::', 'get_optional_region_name_and_vftable', ['&semantic::type_registry::TypeRegistry', '&grammar::ItemPath', 'std::option::Option<&semantic::type_definition::Region>'],
      'std::result::Result<std::option::Option<(std::string::String, &semantic::type_definition::vftable::TypeVftable)>, anyhow::Error>'),
+    ('semantic::type_definition::', 'build::get_defaultable_type_path', ['&semantic::types::Type'], 'std::option::Option<&grammar::ItemPath>'),
     ('util::', 'lcm', ['impl Iterator<Item = usize>'], 'usize'),
     ('util::', 'gcd', ['usize', 'usize'], 'usize'),
 ]
